@@ -593,12 +593,21 @@ int reader_seek(struct reftable_reader *r, struct reftable_iterator *it,
 	uint8_t typ = reftable_record_type(rec);
 
 	struct reftable_reader_offsets *offs = reader_offsets_for(r, typ);
+	int err = 0;
 	if (!offs->is_present) {
 		iterator_set_empty(it);
 		return 0;
 	}
 
-	return reader_seek_internal(r, it, rec);
+	err = reader_seek_internal(r, it, rec);
+	if (err > 0) {
+		/* The key sorts after every entry of the section's index: the
+		   result is an empty iterator, as for a section without an
+		   index. */
+		iterator_set_empty(it);
+		err = 0;
+	}
+	return err;
 }
 
 int reftable_reader_seek_ref(struct reftable_reader *r,
